@@ -79,6 +79,17 @@ func runAddr(c *h.Ctx, ac AddrCase) {
 			}
 		}
 	}
+	// sealing into a writer that already holds data (a frame header, a previous token): the CID is
+	// that of the bytes THIS call wrote
+	for _, prefix := range [][]byte{[]byte("frame-header:"), sealed} {
+		pre := bytes.NewBuffer(append([]byte{}, prefix...))
+		if id3, err := tk.ToSealedWriter(pre, priv); err == nil {
+			written := pre.Bytes()[len(prefix):]
+			if !cidOK(id3, written) {
+				c.Fail("C08/address/ToSealedWriter-into-used-buffer", "ToSealedWriter into a buffer already holding %d bytes reported %s; the %d bytes it appended hash to %x", len(prefix), id3, len(written), refCID(written))
+			}
+		}
+	}
 	type dec struct {
 		name string
 		f    func() (cid.Cid, error)
